@@ -67,6 +67,7 @@ _duration_re = re.compile(
         r'(?:T(?:(?P<hours>\d+)H)?'
         r'(?:(?P<minutes>\d+)M)?'
         r'(?:(?P<seconds>\d+(\.\d+)?)S)?)?'
+        r'\Z'
     )
 
 
